@@ -53,6 +53,10 @@ def make_history(case):
     for i, s in enumerate(h["steps"]):
         if i > 0:
             s["sleep_before"] = 3.0
+    if case.get("resume_after_finish"):
+        # the final checkpoint is a checkpoint too: a fresh process restores
+        # the finished run and run() is called again
+        h["steps"].append(dict(h["steps"][-1], final_resume=True))
     return h
 
 
@@ -85,6 +89,19 @@ def judge(case, reports, add, stats):
                 f"step {i}: the previous process was killed; "
                 f"resuming raised {r.get('exc_type')}: {r.get('exc_msg')}",
                 {"step": i})
+    # the finished run restored from its final checkpoint must run() again
+    # without failing
+    if case.get("resume_after_finish") and len(reports) >= 2 and \
+            reports[-2].get("status") == "completed":
+        r = reports[-1]
+        classes.append("final-checkpoint-resumed")
+        if r.get("status") == "exception" and not r.get("exc_in_harness"):
+            add("resume-of-finished-run-failed:%s@%s" % (
+                r.get("exc_type"), r.get("exc_where")),
+                f"the run had completed; a fresh process resumed its final "
+                f"checkpoint and run() raised {r.get('exc_type')}: "
+                f"{r.get('exc_msg')}", {"step": len(reports) - 1})
+        reports = reports[:-1]
     # a process that follows a kill raised while sampling: decided in run()
     # by executing the same configuration without the kills
     for i, r in enumerate(reports):
@@ -165,6 +182,11 @@ def decide_failed_after_resume(ctx, out):
 def run(ctx):
     n = 14 if ctx.quick else 300
     cases = configs.collect(strategy(ctx), ctx.seed, n)
+    for i, c in enumerate(cases):
+        if i % 3 == 1:
+            c["resume_after_finish"] = True
+            c["labels"] = list(c.get("labels", [])) + [
+                "history:final-checkpoint-resumed"]
     cases += runcheck.known_cases("C12")
     FAILED_AFTER_RESUME[:] = []
     out = runcheck.execute_cases(ctx, "c12", cases, make_history, judge)
